@@ -132,6 +132,12 @@ VF_HARNESS(remove) {
   L c = vf_range(0, MEMSZ2 - 1); L i[D]; if(!spec_designates(e.s, c, i)) vf_assert(g_m[c] == g_old[c], "elements outside the view are left unchanged");
   vf_reach("remove");
 }
+VF_HARNESS(shift_right) {   // copy_backward(first, last - 1, last): iterator - integer, decrement from end()
+  Env e = setup(1);
+  { RANGE_OF(e, g_m); std::copy_backward(first, last - 1, last); }
+  std::copy_backward(e.ref, e.ref + e.n - 1, e.ref + e.n);
+  check_contents(e); vf_reach("shift_right");
+}
 VF_HARNESS(fill_transform) {
   Env e = setup(0); L which = vf_range(0, 1);
   { RANGE_OF(e, g_m); if(which == 0) { std::fill(first, last, 7); } else { std::transform(first, last, first, [](int x) { return 2 * x + 1; }); } }
